@@ -129,7 +129,7 @@ pub fn run(env: &Env, run: &Run) -> (Stats, Coverage) {
                 }
             }
         }
-        // history within one string: the code point next to each of its bit-16..20 aliases
+        // history within one string: the code point next to each of its 16 other-plane aliases
         for a in alias_chars(c) {
             for l in [vec![c as u32, a as u32], vec![a as u32, c as u32]] {
                 let s = from_cps(&l);
@@ -167,6 +167,16 @@ pub fn run(env: &Env, run: &Run) -> (Stats, Coverage) {
                     inputs.push(full[..k].to_vec());
                     let mut v = full[..k].to_vec();
                     v.push(full[k]);
+                    inputs.push(v);
+                }
+            }
+            // the same sequences behind a character that an earlier rule rewrites (upper case,
+            // fullwidth, non-ASCII space): normalisation then works on a buffer that was already copied
+            let base_inputs = inputs.clone();
+            for pre in [0x41u32, 0xFF21, 0xA0, 0x130] {
+                for l in &base_inputs {
+                    let mut v = vec![pre];
+                    v.extend_from_slice(l);
                     inputs.push(v);
                 }
             }
@@ -219,7 +229,7 @@ pub fn run(env: &Env, run: &Run) -> (Stats, Coverage) {
     st.sample(json!({"profile": "Nickname", "input": ["U+3131"], "expected": "Err: NFKC gives U+1100 (DISALLOWED old Hangul jamo), caught by re-validation"}));
     st.sample(json!({"profile": "OpaqueString", "input": ["U+0041", "U+030A"], "expected": "Ok(U+00C5); enforcing U+00C5 again returns it unchanged"}));
     let cov = Coverage {
-        rule: format!("(a) every scalar value between prefixes {{'', a, U+05D0}} and suffixes {{'', U+0308, U+0301, a}} x 4 profiles; (b) each of the {} canonically decomposable characters of UnicodeData 16.0: its full decomposition, its direct decomposition, every permutation of its combining marks, every proper prefix (+ next mark), and the upper-cased variants; (c) every string of length <= {} over 24 cased/width/compatibility symbols, pumped runs, ASCII block strings, and every scalar value next to each of its bit-16..20 aliases; oracle on each accepted result e: every code point re-classified with the profile's own class AND the reference derived property is neither DISALLOWED nor UNASSIGNED, and enforce(e) is Ok(e) or an error; non-trivial = accepted inputs whose result differs from the input", decomposable.len(), n),
+        rule: format!("(a) every scalar value between prefixes {{'', a, U+05D0}} and suffixes {{'', U+0308, U+0301, a}} x 4 profiles; (b) each of the {} canonically decomposable characters of UnicodeData 16.0: its full decomposition, its direct decomposition, every permutation of its combining marks, every proper prefix (+ next mark), the upper-cased variants, and all of these behind A / fullwidth A / NBSP / I-dot; (c) every string of length <= {} over 24 cased/width/compatibility symbols, pumped runs, ASCII block strings, and every scalar value next to each of its 16 other-plane aliases; oracle on each accepted result e: every code point re-classified with the profile's own class AND the reference derived property is neither DISALLOWED nor UNASSIGNED, and enforce(e) is Ok(e) or an error; non-trivial = accepted inputs whose result differs from the input", decomposable.len(), n),
         alphabet: json!(sigma.iter().map(|c| format!("U+{:04X}", *c as u32)).collect::<Vec<_>>()),
         bound_completed: format!("sweep 1,112,064 x 12 contexts x 4 profiles; {} decomposable characters; tree length <= {}", decomposable.len(), n),
         exhaustive: false,
